@@ -26,7 +26,8 @@ def run(ctx):
         ctx.add_mc('MC_Loader/SpecAll(%s,enforce_new=%s)' % (variant, en), res)
     rng = ctx.rng
     new_ovs = [None, ('main', 'new'), ('d1/a', 'new'), ('d2/a', 'both')]
-    old_ovs = [None, ('main', 'old'), ('d1/b', 'old'), ('main', 'alias'), ('d1/b', 'alias'), ('d2/a', 'alias'), ('main', 'oldsame'), ('d1/b', 'oldsame')]
+    old_ovs = [None, ('main', 'old'), ('d1/b', 'old'), ('main', 'alias'), ('d1/b', 'alias'), ('d2/a', 'alias'), ('main', 'oldsame'), ('d1/b', 'oldsame'),
+               ('main', 'rolenew'), ('d1/b', 'rolenew')]
     n = 0
     rows = 0
     for variant in lc.VARIANTS:
@@ -58,7 +59,7 @@ def run(ctx):
                    [('write', 'main', 'old'), ('load', False), ('empty', 'main'), ('load', False)],
                    [('write', 'main', 'fixed'), ('write', 'd1/b', 'old'), ('load', False), ('delete', 'd1/b'), ('load', False)],
                    [('write', 'd1/a', 'alias'), ('load', False), ('setopt', not en), ('load', True), ('setopt', en), ('load', True)]]
-            for style in ([rng.randrange(len(lc.STYLES))] if q else range(len(lc.STYLES))):
+            for style in (sorted({rng.randrange(len(lc.STYLES))} | ({len(lc.STYLES) - 1} if not en else set())) if q else range(len(lc.STYLES))):
                 traces = []
                 for h in hs:
                     dfl = lc.defaults_for(variant, style, reason=rng.choice(['r', 'because: "x"', '']) or 'r',
